@@ -28,7 +28,14 @@ class TLCResult:
     depth: int = 0
     ok: bool = False  # "No error has been found"
     violated: list[str] = field(default_factory=list)  # names of violated invariants / properties
-    json_lines: list = field(default_factory=list)
+    json_raw: list = field(default_factory=list)   # unparsed JSON case lines (TLC string literals)
+    _json: list | None = None
+
+    @property
+    def json_lines(self) -> list:
+        if self._json is None:
+            self._json = [decode(x) for x in self.json_raw]
+        return self._json
     coverage: dict = field(default_factory=dict)  # action name -> (distinct, total)
     error_text: str = ""
     postcondition_failed: bool = False
@@ -107,11 +114,10 @@ def parse(out: str, wall: float) -> TLCResult:
     other = []
     for line in out.splitlines():
         if line.startswith('"{') or line.startswith('"['):
-            try:
-                r.json_lines.append(json.loads(json.loads(line)))
-                continue
-            except Exception:
-                raise MachineryError("unparsable TLC JSON line: " + line[:200])
+            if not line.endswith('}"') and not line.endswith(']"'):
+                raise MachineryError("truncated / interleaved TLC JSON line: " + line[:200])
+            r.json_raw.append(line)
+            continue
         other.append(line)
     text = "\n".join(other)
     r.stdout = text
@@ -137,6 +143,14 @@ def parse(out: str, wall: float) -> TLCResult:
         errs = [l for l in other if l.startswith("Error:") or "Exception" in l]
         r.error_text = "\n".join(errs[:20])
     return r
+
+
+def decode(line: str):
+    """One printed case line (a TLA+ string literal holding JSON) -> Python value."""
+    try:
+        return json.loads(json.loads(line))
+    except Exception:
+        raise MachineryError("unparsable TLC JSON line: " + line[:200])
 
 
 def require_clean(r: TLCResult, what: str) -> None:
